@@ -147,7 +147,9 @@ def run(module, *, constants=None, defs=None, init="Init", next="Next", spec=Non
             cmd += ["-depth", str(depth)]
         if seed is not None:
             cmd += ["-seed", str(seed)]
-        if coverage or os.environ.get("VERIF_TLC_COVERAGE") == "1":
+        # per-action coverage of every run of the thorough tier, except the lattice-point runs: there the actions are
+        # "read the next point", the work is in the invariants, and TLC's per-expression counters cost 2-4x
+        if coverage or (os.environ.get("VERIF_TLC_COVERAGE") == "1" and not (env and "POINTS_FILE" in env)):
             cmd += ["-coverage", "1"]
         cmd.append(mc + ".tla")
         e = dict(os.environ)
